@@ -149,6 +149,13 @@ class VLoop(asyncio.SelectorEventLoop):
 
     def call_at(self, when, callback, *args, context=None):  # type: ignore[override]
         self._check_closed()
+        # A real clock moves on while code runs; the virtual clock only moves when a timer is due.  Code that waits "until
+        # next_time" in a loop (async_check_service) can be left with a remainder of 1e-10 ms by float rounding: the timer for it
+        # is due at once, the clock does not move, the remainder stays - a livelock that no real run can have.  A positive
+        # delay below one microsecond therefore takes one microsecond of virtual time.
+        delta = when - self.vclock.t
+        if 0.0 < delta < 1e-6:
+            when = self.vclock.t + 1e-6
         timer = _SeqTimerHandle(when, callback, args, self, context)
         self._timer_seq += 1
         timer._seq = self._timer_seq
